@@ -43,6 +43,11 @@ def gen_case(seed, n):
     r1 = random.Random(f"C05:1xx:{seed}:{n}")
     for i, q in enumerate(reqs):
         q["expect100"] = (q["method"] == "POST" and r1.random() < 0.5)
+    # a CONNECT as the last pipelined request: a tunnel takes over the connection, so whatever squid does with it (200 and a
+    # tunnel once its turn has come, or a refusal) must not disturb the responses owed to the earlier requests
+    if k >= 2 and r1.random() < 0.1:
+        reqs[-1]["method"] = "CONNECT"
+        reqs[-1]["expect100"] = reqs[-1]["expect417"] = False
     if "dupurl" in AVOID:
         for i, q in enumerate(reqs):
             q["u"] = i
@@ -140,6 +145,9 @@ def run(a, res):
             if i == len(c["reqs"]) - 1 and c["last_close"]:
                 hs.append(("Connection", "close"))
             head = f"{q['method']} {url} HTTP/1.1\r\n" + "".join(f"{k}: {v}\r\n" for k, v in hs) + "\r\n"
+            if q["method"] == "CONNECT":
+                head = f"CONNECT 127.0.0.1:{lab.org.port} HTTP/1.1\r\nHost: 127.0.0.1:{lab.org.port}\r\nX-Verif-Req: {c['seed']}.{c['n']}.{attempt}.{i}\r\n\r\n"
+                res.count("pipelined_connect_requests")
             out += head.encode() + body
             bounds.append(len(out))
             exp.append((q["method"], path))
